@@ -80,9 +80,18 @@ def _in_raise(node, par):
     return False
 
 
+def _is_view(node):
+    """`d.keys()` / `d.items()`: set-like views"""
+    return (isinstance(node, ast.Call) and isinstance(node.func, ast.Attribute) and node.func.attr in ("keys", "items")
+            and not node.args and not node.keywords)
+
+
 def _is_set_expr(node):
     if isinstance(node, (ast.Set, ast.SetComp)):
         return True
+    if isinstance(node, ast.BinOp) and isinstance(node.op, (ast.BitOr, ast.BitAnd, ast.Sub, ast.BitXor)) and (
+            _is_set_expr(node.left) or _is_set_expr(node.right) or _is_view(node.left) or _is_view(node.right)):
+        return True        # the RESULT of a set operator is a set: its own site, classified by its own use
     if isinstance(node, ast.Call):
         if isinstance(node.func, ast.Name) and node.func.id in ("set", "frozenset"):
             return True
@@ -114,6 +123,9 @@ def _classify_use(node, par, depth=0):
             name = f.id if isinstance(f, ast.Name) else (f.attr if isinstance(f, ast.Attribute) else "?")
             if isinstance(f, ast.Attribute) and f.attr in SET_METHODS + ("issubset", "issuperset", "isdisjoint", "update"):
                 return ["setop"]
+            if name == "sorted" and any(k.arg == "key" and any(isinstance(x, ast.Name) and x.id in ("hash", "id")
+                                                               for x in ast.walk(k.value)) for k in p.keywords):
+                return ["iterate" + tag_raise]      # sorted by hash / address: an order that changes from run to run
             if name in ORDER_FREE_CALLS:
                 return [name if name in ("len", "sorted") else "orderfree-call"]
             if name in ORDER_OBSERVING_CALLS or name in ("array", "asarray", "format", "join", "extend", "append"):
